@@ -31,7 +31,8 @@ def outer(argv):
         "MC_SCRATCH": scratch,
         "PYTHONHASHSEED": "0",
         "PYTHONDONTWRITEBYTECODE": "1",
-        "PYTHONPATH": "/repo" + os.pathsep + VERIF,
+        # VERIF_REPO lets the seeded-change campaign (tools/run_seeded.py) aim a check at a scratch copy; default is /repo
+        "PYTHONPATH": os.environ.get("VERIF_REPO", "/repo") + os.pathsep + VERIF,
         "NUMBA_CACHE_DIR": os.path.join(scratch, "numba"),
         "COLUMNS": "80",
         "LINES": "24",
@@ -58,7 +59,7 @@ def outer(argv):
 
 def validate_evidence(check_id):
     """Full JSON-schema validation with the tooling interpreter when present."""
-    path = os.path.join(VERIF, "evidence", f"{check_id}.json")
+    path = os.path.join(os.environ.get("VERIF_OUT", VERIF), "evidence", f"{check_id}.json")
     schema = "/root/.vp/EVIDENCE.schema.json"
     vt = shutil.which("python3-vt")
     if not (vt and os.path.exists(schema)):
